@@ -85,3 +85,20 @@ package ds
 //@   ensures window: len(s.store) == min(n, amount) && s.store.ref == old_store.ref && s.store.lo == old_store.lo + (n - min(n, amount))
 //@   loop 1 invariant len(s.store) <= n && len(s.store) >= min(n, amount) && s.store.ref == old_store.ref && s.store.lo == old_store.lo + (n - len(s.store))
 //@   loop 1 decreases len(s.store)
+
+// ---- Optional[T], Range (C17) ----
+
+//@ func (Optional).HasValue [C17]
+//@   ensures result == o.hasValue
+//@ func (Optional).GetValue [C17]
+//@   requires o.hasValue
+//@   ensures result == o.data
+//@ func (Optional).GetValueOrDefault [C17]
+//@   ensures result == (o.hasValue ? o.data : def)
+
+// The document handed to encoding/json has exactly the members start and end.
+//@ func (Range).MarshalJSON [C17]
+//@   nopanic
+//@   atcall Marshal members: arg0 is map[string]int && (forall k Str :: { has(result, k) } has(result, k) == (k == "start" || k == "end"))
+//@   atcall Marshal values: (arg0 as map[string]int) == result && result["start"] == r.Start && result["end"] == r.End
+//@   ensures result.1 == nil
